@@ -162,8 +162,11 @@ def main(tier):
         run.proofs()
         r = run.rng
         inputs = gen_inputs(r, 6000 if tier == "thorough" else 1200)
-        corpus = [b"(1 + ", b"(1.\n)", b"", b"#", b"'abc", b"{'a': 1", b"\x00", b"(" + b"a" * 70 + b" + )",
+        corpus = [b"(1 + 2\n", b"[1, 2,\n\n", b"\n", b"(1 + 2.\n\n3)", b"(\n\n", b"{'a':\n", b"1 +\n\n\n", b"(1\n\n +", b"(1 + ", b"(1.\n)", b"", b"#", b"'abc", b"{'a': 1", b"\x00", b"(" + b"a" * 70 + b" + )",
                   "(力量力量力量力量力量力量力量力量力量力量力量力量力量力量力量力量力量力量力量力量力量 + )".encode(), b"(1 +\n\n  2 +\n ]"]
+        for ln in (57, 58, 59, 60, 61, 62):
+            corpus.append(b"(" + b"a" * (ln - 5) + b" + )")          # a quoted line of exactly ln bytes
+            corpus.append(b"1;\n(" + "力".encode() * ((ln - 4) // 3) + b"x" * ((ln - 4) % 3) + b" +)")
         inputs = corpus + inputs
         lines = [f"errparse E{lang} {hx(d)}" for d in inputs for lang in (0, 1, 2)]
         out = run.go_only("errparse", lines, go_timeout=300)
